@@ -138,6 +138,11 @@ namespace cs
         {
             ctl().born(this, id);
         }
+        // (is_nothrow_move_constructible says nothing about a copy from an lvalue either)
+        InstN(InstN&& o) noexcept : value(o.value)
+        {
+            ctl().born_quiet(this, id);
+        }
         ~InstN()
         {
             ctl().died(this, id);
